@@ -1019,3 +1019,9 @@ def dupflag_variant(task, tier):
     """Tasks that are also run with config.display_duplicate_attribute_warning = True (the runner appends
     ':duplicate_attribute_flag' to the input class of anything found there)."""
     return bool(task.get("kind") in ("polyline", "surface"))
+
+
+def warm_variant(task, tier):
+    """Tasks that are also run on meshes whose attribute blackboard is already filled with (valid) persistent attributes
+    (mc/families.py WARM; the runner appends ':warm_attribute_blackboard' to the input class of anything found there)."""
+    return bool(task.get("kind") in ("polyline", "surface"))
